@@ -71,7 +71,7 @@ def run_under_memcheck(ctx, b, exe, name, extra_args, cases, shards):
 
 # pass through only the part of a lackey trace after the harness's marker (>= 10 consecutive " S <same address>,8" records,
 # instruction records in between ignored); valgrind's own "==pid==" lines are dropped
-AWK_AFTER_MARKER = ('/^==/ {next} started {print; next} /^ S / { if ($2 == prev) cnt++; else { cnt = 1; prev = $2 } if (cnt >= 10) started = 1; next } '
+AWK_AFTER_MARKER = ('/^==/ {next} /^\\*\\*/ {next} started {print; next} /^ S / { if ($2 == prev) cnt++; else { cnt = 1; prev = $2 } if (cnt >= 10) started = 1; next } '
                     '/^I/ {next} { cnt = 0; prev = "" }')
 
 
@@ -107,7 +107,7 @@ def arbiter_run(scratch, seed, bname, exe, idx, secfile):
     try:
         for line in pr.stdout:
             line = line.rstrip('\n')
-            if line.startswith('=='):
+            if line.startswith('==') or line.startswith('**'):
                 continue
             if line == begs:
                 cur = [hashlib.sha256(), 0]       # (re)start after every begin-marker store: the segment starts after the last one
